@@ -13,6 +13,10 @@ receive APIs, overridden as in the shipped examples, several messages per connec
 APIs x over-limit / at-limit / legal payloads on one connection, with a peer that reads the octets written with one real
 inflater (judge_sends), and the Gallina send model (Model/WsSendGuard.v, theorems C16_send_refused_all_apis,
 C16_send_whole_or_nothing, C16_peer_reads_accepted) re-evaluated on every send case with the compressor replayed.
+
+Round 4: limit failures x pending queued writes (sendMessage(sync=True) / sendFrame(chopsize=n) still in the write queue
+when the over-limit header is read): base.pending_stage, differential against the same reads without queued writes; the
+write queue is modelled in Model/WsSendGuard.v (C16_close_frame_reaches_wire).
 """
 import json
 import os
@@ -535,6 +539,24 @@ def run(ck):
             if g["wrote"] and g["raised"] is None:
                 ck.violation("send-api/frame-wise/over-limit-written", FRAME_WISE_WHAT,
                              {"fw": fw, "case": c, "observed": brief_sends(r)}, found_input=True)
+        # ---- a limit (or any other) failure while the application has synchronous / chopped writes queued: the 1009 close frame
+        # must reach the wire after the queued data (base.pending_stage: each case plain, with sync and with chopped writes)
+        pend = []
+        prng = ck.rng("pending")
+        for role in ("server", "client"):
+            masked = role == "server"
+            for L in (5, 125, 1000):
+                for kind, lim_msg, lim_frame in (("msg", L, 0), ("frame", 0, L), ("both-equal", L, L)):
+                    for size in (L, L + 1, 2 * L + 3):
+                        payload = bytes((i * 3 + size) & 0x7F for i in range(size))
+                        for lname, frames in layouts(payload, 2, masked, prng)[:2]:
+                            stream = b"".join(frames)
+                            for fbd in (True, False):
+                                cfgc = dict(BASE, role=role, fbd=fbd, max_msg=lim_msg, max_frame=lim_frame)
+                                pend.append(dict(cfgc, chunks=[stream.hex()]))
+                                k = header_len(frames[-1]) + (len(stream) - len(frames[-1]))      # up to the last frame's header
+                                pend.append(dict(cfgc, chunks=[stream[:k].hex(), stream[k:].hex()]))
+        base.pending_stage(ck, fw, [c for c in pend if all(c["chunks"])], "C16")
         ck.log(f"[{fw}] receive APIs ({len(acases)} runs) and send APIs ({len(sa_cases)} runs): {time.time() - t_new:.1f}s")
 
         # ---- decompression cap, real zlib
@@ -627,6 +649,8 @@ def replay(path):
     fw = r.get("fw", "tx")
     if "config_calls" in case:
         return base.replay_config(ck, fw, case)
+    if "pending_writes" in case:
+        return base.replay(path)
     res = base.run_cases(ck, fw, [case])[0]
     if "sends" in case:
         print("case          :", json.dumps(case)[:3000])
